@@ -2,12 +2,14 @@
 from propcommon import COMMON_MODELLED
 PROP = dict(
         gotest="TestC13",
+        translator="arithC13",
+        extra_props=["ArithTieC13"],
         extra_gotests=[("TestZdec", "Zdec")],
         model="coq/Models/Chef.v (exact: CollectGasFees / CollectPerpRevenue / CollectDEXRevenue split arithmetic incl. the account every portion is "
               "taken from, pool shares and the credited integer of UpdateLPRewards, UpdateAccPerShare, UpdateUserRewardPending/Debt over GetRewardDenoms, "
               "ClaimRewards, AddExternalIncentive, ProcessExternalRewardsDistribution; collected amounts, revenue coins, proxy TVLs and committed share "
               "amounts are implementation-resolved inputs)",
-        coq_deps=["Base/", "Models/Chef.v", "Proofs/ChefProofs.v", "Run/ChefRun.v", "Props/C13.v"],
+        coq_deps=["Base/", "Models/Chef.v", "Proofs/ChefProofs.v", "Run/ChefRun.v", "Props/C13.v", "Generated/ArithC13.v", "Proofs/ArithTieTac.v", "Proofs/ArithTieC13.v", "Props/ArithTieC13.v"],
         rule="histories of 32-54 ops on a fresh real app each (market fixture; masterchef portions 0.6/0.25, 1/3 / 0.5, 0.7/0.3 through the real "
              "MsgUpdateParams): MsgSwapExactAmountIn on both pools, gas fees in uusdc/uatom/uelys (SendCoinsFromAccountToModule to the fee collector, "
              "as the ante handler does), donations of any denom to pool revenue addresses, perpetual MsgOpen/MsgClose with blocks of 5 s..1 day, "
@@ -16,7 +18,8 @@ PROP = dict(
              "and unknown pool ids, real FinalizeBlock+Commit, then every account claims everything in random order; amounts: dust 1..9, "
              "per decade 1e1..1e11; distinct = distinct (op,result) sequence incl. which revenue sources each block had; non-trivial = at least one "
              "block with revenue or one successful share change / incentive / claim",
-        trusted_base=["collected amounts per block are read off the block's ordered bank events and the balances before the block; proxy TVLs are read "
+        trusted_base=["tools/gotrans arith (Go AST + go/types -> Gallina over Base/Zdec.v): the method table of coq/Generated/ARITH_README.md (Int/LegacyDec method -> Zdec function, validated by TestZdec); what the opaque readers of a translated function return is covered by the correspondence run only",
+                      "collected amounts per block are read off the block's ordered bank events and the balances before the block; proxy TVLs are read "
                       "right after the block on a context with the block's time (nothing after the masterchef end blocker changes them)",
                       "Eden rewards are disabled on every pool (default); Eden is not bank-backed",
                       "Int/LegacyDec overflow panics are not modelled; negative pool multipliers (governance) are outside the model"],
